@@ -246,6 +246,27 @@ func (g *Gen) relsFor(ids []int, invalid bool) [][2]int64 {
 			out = append(out, [2]int64{int64(c), g.pickTarget(invalid)})
 		}
 	}
+	// malformed lists (at the stream's misuse rate): a relation component named twice, named twice
+	// instead of another one, or a relation for a component that is not among ids
+	if len(out) > 0 && g.R.Chance(g.St.Invalid) {
+		switch g.R.Intn(3) {
+		case 0:
+			out = append(out, [2]int64{out[0][0], g.pickTarget(false)})
+		case 1:
+			if len(out) >= 2 {
+				out[1][0] = out[0][0]
+			} else {
+				out = append(out, [2]int64{out[0][0], g.pickTarget(false)})
+			}
+		default:
+			for c := range g.S.IDs {
+				if g.isRel(c) && !contains(ids, c) {
+					out = append(out, [2]int64{int64(c), g.pickTarget(false)})
+					break
+				}
+			}
+		}
+	}
 	return out
 }
 
